@@ -129,3 +129,6 @@ def witness_search(tier, seed):
                     if got != expect:
                         return dict(input=dict(chart_property=prop, value=val, behaviors=str(beh)), detail=f"conversion did '{got}', the policy for {kind} says '{expect}'")
     return None
+
+from pyvc.xcheck import OrderedDictProbe   # noqa: E402
+THOROUGH_BOUNDED = [OrderedDictProbe()]
